@@ -350,10 +350,14 @@ def _annotations_owner(obj):
     """The function whose annotations `inspect.signature` reports for obj:
     the one at the end of the ``__wrapped__`` chain it follows"""
     try:
-        return inspect.unwrap(
+        owner = inspect.unwrap(
             obj, stop=lambda func: hasattr(func, '__signature__'))
     except ValueError:
         return obj
+    # what evaluates annotations needs the code and globals of a function:
+    # a partial object, a class or an instance at the end of the chain has
+    # neither
+    return owner if hasattr(owner, '__code__') else obj
 
 
 def set_default_sources(sig, obj):
